@@ -84,6 +84,8 @@ struct GridBase : EngineBase {
     MonScope m;
     if (EI<E>::kTracked && g_live_lib != 0) { violation(props, "ledger.alive_after_destruction", fmt("%ld element object(s) still alive after the containers were destroyed", g_live_lib)); g_live_lib = 0; }
     if (g_blk_live != 0) { violation(props, "alloc.outstanding_after_destruction", fmt("%ld block(s) outstanding after the containers were destroyed", g_blk_live)); }
+    // long grids create millions of tracked objects per history: recycle the serial space between cells, when nothing is alive
+    if (g_next_serial > kMaxSerial / 2 && g_live_lib == 0 && g_live_harness == 0) ledger_reset();
   }
 };
 
